@@ -342,9 +342,10 @@ def _run_call(p, tb, call, rec=None):
         p.rec_loops = 0
     try:
         if call.get("frag"):
-            tree = p.parseFragment(src, container=call["frag"])
+            # the container positionally or as keyword (call["conv"]); its name may be spelled in any letter case
+            tree = p.parseFragment(src, call["frag"]) if call.get("conv") == "pos" else p.parseFragment(src, container=call["frag"])
         else:
-            tree = p.parse(src)
+            tree = p.parse(src, False) if call.get("conv") == "pos" else p.parse(src)
         out = "ok"
     except ParseError:
         tree, out = None, "ParseError"
@@ -470,7 +471,8 @@ def api_call(tb, call):
     src = Source(call["chunks"], call.get("fail", 0), call.get("hook"))
     try:
         if call.get("frag"):
-            tree = html5lib.parseFragment(src, container=call["frag"], treebuilder=tb)
+            tree = (html5lib.parseFragment(src, call["frag"], tb) if call.get("conv") == "pos"
+                    else html5lib.parseFragment(src, container=call["frag"], treebuilder=tb))
         else:
             tree = html5lib.parse(src, treebuilder=tb)
         return "ok", tree, None
@@ -537,6 +539,36 @@ def render_doc(doc, frag, tb, opts, enc):
         return "crash:" + type(e).__name__
 
 
+FACTORY_DOC = "<!DOCTYPE html><!--c--><p>x"
+
+
+def factory_observe(req, spell=0):
+    """one factory request of MC_FactoryCache followed by a parse / walk; returns (got_full, ok) where got_full says whether
+    the whole document (doctype, top-level comment) came back and ok that everything else is as the request says"""
+    from html5lib import html5parser, treebuilders, treewalkers
+    kind = req["kind"]
+    name = {"tb-etree": "etree", "tb-dom": "dom", "tw-etree": "etree"}[kind]
+    name = [name, name.upper(), name.title()][spell % 3]          # the type name is matched case-insensitively
+    if kind == "tb-etree":
+        kw = {} if req["full"] == "absent" else {"fullTree": req["full"] == "true"}
+        tb = treebuilders.getTreeBuilder(name, **kw)
+        root = html5parser.HTMLParser(tb, namespaceHTMLElements=req["ns"]).parse(FACTORY_DOC)
+        full = root.tag == "DOCUMENT_ROOT"
+        html = root.find("{http://www.w3.org/1999/xhtml}html" if req["ns"] else "html") if full else root
+        ok = html is not None and html.tag == ("{http://www.w3.org/1999/xhtml}html" if req["ns"] else "html")
+        toks = [t["type"] for t in treewalkers.getTreeWalker("etree")(root)]
+        ok = ok and (("Doctype" in toks) == full) and (("Comment" in toks) == full) and toks.count("StartTag") == 4
+        return full, ok
+    if kind == "tb-dom":
+        doc = html5parser.HTMLParser(treebuilders.getTreeBuilder(name), namespaceHTMLElements=req["ns"]).parse(FACTORY_DOC)
+        fl = flat_dom(doc)
+        return False, [x["n"] for x in fl] == ["#doctype", "#comment", "html", "head", "body", "p", "#text"]
+    w = treewalkers.getTreeWalker(name)
+    root = html5parser.HTMLParser(treebuilders.getTreeBuilder("etree", fullTree=True)).parse(FACTORY_DOC)
+    toks = [t["type"] for t in w(root)]
+    return False, toks[:2] == ["Doctype", "Comment"] and toks.count("StartTag") == 4
+
+
 def _sub_main():
     import json
     import sys
@@ -545,7 +577,9 @@ def _sub_main():
         if not line:
             continue
         req = json.loads(line)
-        if "render" in req:
+        if "factory" in req:
+            print(json.dumps([list(factory_observe(r)) for r in req["factory"]]))
+        elif "render" in req:
             r = req["render"]
             print(json.dumps(render_doc(r["doc"], r["frag"], r["tb"], r["opts"], r["enc"])))
         else:
